@@ -242,6 +242,60 @@ def run_case(c):
     return out
 
 
+class SeqHead(nn.Module):
+    """a recurrent / sequence layer followed by a linear head on the last time step"""
+
+    def __init__(self, layer, width):
+        super().__init__()
+        self.layer = layer
+        self.out = nn.Linear(width, 2)
+
+    def forward(self, x):
+        y = self.layer(x)
+        y = y[0] if isinstance(y, tuple) else y
+        return self.out(y[:, -1])
+
+
+def trainable_case(c):
+    """a model that make_private accepts must be trainable: one DP step (hooks mode) succeeds and moves the parameters of every layer.
+    Layers Opacus cannot handle must be refused by validation / make_private, not fail at the first optimizer step."""
+    from opacus import PrivacyEngine
+    from torch.utils.data import DataLoader, TensorDataset
+    out = {'error': None}
+    try:
+        torch.manual_seed(c['seed'])
+        k = c['layer']
+        layer, width = {'gru': (nn.GRU(3, 4, batch_first=True), 4), 'rnn': (nn.RNN(3, 4, batch_first=True), 4), 'lstm': (nn.LSTM(3, 4, batch_first=True), 4),
+                        'bigru': (nn.GRU(3, 4, batch_first=True, bidirectional=True), 8), 'linear': (nn.Linear(3, 4), 4),
+                        'conv_seq': (nn.Sequential(nn.Linear(3, 4), nn.Tanh()), 4)}[k]
+        model = SeqHead(layer, width)
+        out['validate'] = [type(e).__name__ for e in ModuleValidator.validate(model, strict=False)]
+        opt = torch.optim.SGD(model.parameters(), lr=0.1)
+        dl = DataLoader(TensorDataset(torch.randn(8, 5, 3), torch.randint(0, 2, (8,))), batch_size=4)
+        try:
+            m, o, d = PrivacyEngine(accountant='rdp').make_private(module=model, optimizer=opt, data_loader=dl, noise_multiplier=0.5, max_grad_norm=1.0,
+                                                                   poisson_sampling=False, grad_sample_mode=c.get('mode', 'hooks'))
+            out['mp'] = 'ok'
+        except Exception as e:
+            out['mp'] = errname(e)
+            return out
+        before = [p.detach().clone() for p in model.parameters()]
+        try:
+            for xb, yb in d:
+                o.zero_grad()
+                nn.CrossEntropyLoss()(m(xb), yb).backward()
+                o.step()
+                break
+            out['step'] = 'ok'
+            out['moved'] = all(float((a - b).abs().max()) > 0 for a, b in zip(before, model.parameters()))
+        except Exception as e:
+            out['step'] = errname(e) + ': ' + str(e)[:120]
+    except Exception as e:
+        import traceback
+        out['error'] = errname(e) + ': ' + str(e)[:300] + ' @ ' + traceback.format_exc()[-400:]
+    return out
+
+
 if __name__ == '__main__':
     p = read_payload()
-    emit({'results': [run_case(c) for c in p['cases']]})
+    emit({'results': [run_case(c) for c in p.get('cases', [])], 'trainable': [trainable_case(c) for c in p.get('trainable', [])]})
